@@ -258,7 +258,7 @@ def runOp (op : String) (dbg : Bool) (a : List String) : Option (Out × Out) := 
     let v ← parseVec v; let e ← parseEnd e
     pure (.ok [.bytes (toVec v e)], .ok [.bytes (v.abs.toVec e)])
   | "to_uint", [v, W] =>
-    let v ← parseVec v; let W ← W.toNat?
+    let v ← parseVec v; let W ← parseWidth W
     let m : Out := match toUInt v W with
       | .ok n => .ok [.nat n]
       | .err e => .err e
